@@ -10,14 +10,14 @@ import (
 
 // Leaf is one wire element with the byte range it occupies.
 type Leaf struct {
-	Path   string `json:"path"`   // Packet.Field[0].Sub
-	Owner  string `json:"owner"`  // declaring packet (inline packets by their own name)
-	Field  string `json:"field"`  // declared field name
-	Kind   string `json:"kind"`   // scalar fixed dyn len sum listprefix strprefix
-	Type   string `json:"type"`   // scalar type / prefix type
-	Elem   string `json:"elem,omitempty"` // list prefix: kind (and scalar type) of the elements
-	Off    int    `json:"off"`
-	Len    int    `json:"len"`
+	Path  string `json:"path"`           // Packet.Field[0].Sub
+	Owner string `json:"owner"`          // declaring packet (inline packets by their own name)
+	Field string `json:"field"`          // declared field name
+	Kind  string `json:"kind"`           // scalar fixed dyn len sum listprefix strprefix
+	Type  string `json:"type"`           // scalar type / prefix type
+	Elem  string `json:"elem,omitempty"` // list prefix: kind (and scalar type) of the elements
+	Off   int    `json:"off"`
+	Len   int    `json:"len"`
 }
 
 // Range is the byte range of a whole (possibly composite) field.
@@ -35,6 +35,9 @@ func Checksum(b []byte) uint32 {
 	var h uint32 = 7
 	for _, c := range b {
 		h = (h*131 + uint32(c) + 1) & 0x7fffffff
+	}
+	if h&7 == 0 {
+		return 0 // one value in eight is 0: a checksum of zero is as good as any other
 	}
 	return h
 }
